@@ -1,62 +1,18 @@
-"""Per-property configuration of /verif/check."""
+"""Per-property configuration of /verif/check: one module per claimed property under checks/."""
+import glob
+import importlib.util
+import os
 
-TRUSTED_BASE = [
-    "Lean 4.33.0 kernel (thorough tier: leanchecker re-check of the property modules)",
-    "axioms: at most propext, Classical.choice, Quot.sound (audited per theorem on every run); no sorry, no native_decide, no added axioms",
-    "hand-written Lean model tied to /repo by the correspondence harness /verif/harness (cvh), rebuilt against the working tree on every run",
-    "Rust compiler, std, and the Lean driver's line protocol (/verif/lean/Main.lean)",
-]
+from checks_common import TRUSTED_BASE  # noqa: F401
 
-HTML_TB = ["recursive renderT/renderF stand for comrak's explicit work-stack traversal (exercised by the correspondence on deep and wide trees, not proved)",
-           "anchor normalisation (Unicode lower-casing / category filter) is a parameter of the model; the harness supplies the real Anchorizer's value per heading text"]
-
-PROPS = {
-    "C18": {
-        "lean_props": ["Comrak.Props.C18"],
-        "lean_audit": ["Comrak.Audit.C18"],
-        "required_theorems": ["enter_sourcepos_only_adds", "exit_sourcepos_only_adds", "exit_independent_of_sourcepos"],
-        "strength": "per-node theorems for all kinds/options/states (HTML); tree-level lift, XML and CommonMark by correspondence + on/off oracle",
-        "trusted_base": HTML_TB,
-        "assumptions": ["the on/off oracle compares strip(on) with strip(off), so a literal data-sourcepos attribute inside passed-through raw HTML is not blamed on the option",
-                        "XML and CommonMark formatters are not yet in the Lean model for this property: decided there by the oracle on real output only"],
-    },
-    "C10": {
-        "lean_props": ["Comrak.Props.C10"],
-        "lean_audit": ["Comrak.Audit.C10"],
-        "required_theorems": ["enter_leaves_opened", "exit_closes_closing", "html_balanced", "html_balanced_of_shape"],
-        "strength": "full at token level for every tree with balShapeT (implied by Shape); byte level by the lexer oracle on real output",
-        "trusted_base": ["token spelling: K compares spell(renderToks) with the real bytes; the step from token balance to byte balance (lexHtml o spell) is checked by running the byte-level oracle on the real output, not proved"],
-        "assumptions": ["plugins and URL rewriters are outside the model", "that every parsed tree satisfies balShapeT is checked on every parsed tree of the run (it is C04's subject)"],
-    },
-    "C19": {
-        "lean_props": ["Comrak.Props.C19"],
-        "lean_audit": ["Comrak.Audit.C19"],
-        "required_theorems": ["escape_append", "escapeHref_append", "escape_no_active", "escapeHref_alphabet",
-                              "unescapeText_escape", "escape_injective", "hrefDecode_escapeHref_partial"],
-        "strength": "full for the text escaper and the tag writer; href escaper: injectivity refuted (by design), proved on inputs without '%'",
-        "assumptions": ["io::Write error paths are not modelled (writers are Vec<u8>)"],
-    },
-}
-
+ROOT = os.path.dirname(os.path.abspath(__file__))
+PROPS = {}
+MANIFEST_TEXT = {}
 NOT_CLAIMED_REASON = {}
 
-MANIFEST_TEXT = {
-    "C18": {
-        "text": "Proof (partial). For the complete token-level model of html.rs, Lean proves for every node kind, option vector, context and writer state that erasing data-sourcepos from what a node writes with the option on gives exactly what it writes with the option off, on entering and on leaving the node (enter/exit_sourcepos_only_adds). The lift to whole trees, and the XML/CommonMark/parser halves, are decided on every run by byte-equal correspondence of the model with format_html for both settings and by the on/off oracle on the real format_html, format_xml, format_commonmark and parse_document over generated documents and directly built trees x random option vectors.",
-        "note": "Trusted: Lean kernel + standard axioms; harness/driver; the tree-level lift needs equality of the two runs' writer states, exercised not proved.",
-        "technique": "Lean 4 per-node theorems (case analysis over 41 kinds) + differential correspondence + metamorphic on/off oracle on real output",
-        "design_ref": "DESIGN.md section 7, C18",
-    },
-    "C10": {
-        "text": "Proof. html.rs's format_node_default is modelled completely at token level (41 node kinds, all options, footnote and table bookkeeping). Lean proves, for every option vector and every tree of any depth/width whose rows sit under tables with a unique leading header row and whose footnote definitions sit under the document or another definition (balShapeT, implied by Shape), that the emitted tag events are balanced and nothing is left open (html_balanced), via per-node pairing lemmas for all kinds. The model is tied to the code by byte-equality of real format_html output with the spelled model tokens on generated documents x random option vectors on every run; the byte-level tag-stack oracle (Lean lexer + stack machine, incl. thead/tbody/footnote-section once) is also run on the real output.",
-        "note": "Trusted: Lean kernel + standard axioms; harness/driver; recursive traversal stands for the explicit work stack; token-to-byte lexing step is exercised, not proved; balShapeT of parsed trees is checked per run, proved nowhere (C04).",
-        "technique": "Lean 4 theorem by mutual structural induction over Tree/Forest with per-kind pairing lemmas + differential correspondence (byte-equal HTML) + lexer/stack oracle on real output",
-        "design_ref": "DESIGN.md section 7, C10",
-    },
-    "C19": {
-        "text": "Proof. escape/escape_href/write_opening_tag are modelled completely (per-byte specification and loop-shaped forms); homomorphism, no-active-character, output alphabet and the decoder round trip are Lean theorems for every byte string. The literal round trip of the href escaper is refuted by a Lean witness (by design: '%' is in the safe set) and recorded as a known finding; injectivity is proved on inputs without '%'. The model is tied to the code by byte-equality on all 65793 strings of length <= 2 plus random longer strings and attribute lists on every run.",
-        "note": "Trusted: Lean kernel + {propext, Classical.choice, Quot.sound}; the correspondence harness and the Lean driver; io::Write never fails (Vec sink).",
-        "technique": "Lean 4 theorems (induction over byte lists, decide +kernel over the 256 byte values) + exhaustive/random differential correspondence against the real functions",
-        "design_ref": "DESIGN.md section 7, C19",
-    },
-}
+for _p in sorted(glob.glob(os.path.join(ROOT, "checks", "C*.py"))):
+    _spec = importlib.util.spec_from_file_location("checks_" + os.path.basename(_p)[:-3], _p)
+    _m = importlib.util.module_from_spec(_spec)
+    _spec.loader.exec_module(_m)
+    PROPS[_m.ID] = _m.PROP
+    MANIFEST_TEXT[_m.ID] = _m.TEXT
